@@ -120,6 +120,47 @@ pub fn gen_send(run: &mut Run, rng: &mut Rng, thorough: bool) {
             }
         }
     }
+    // UDP/IPv6 probes whose checksum *computes* to 0x0000 (classic and Dublin), found by search:
+    // RFC 8200 §8.1 wants 0xFFFF on the wire
+    {
+        let v6 = true;
+        let pairs = addr_pairs(v6, rng);
+        let mut hits = 0;
+        for (src, dst) in pairs {
+            for size in [48u16, 84] {
+                // classic: the variable port is the sequence
+                for cell in cs.iter().filter(|c| c.proto == 'u' && c.strat == 'c') {
+                    let cfg = WCfg { src, dst, size, pattern: rng.next() as u8, tos: rng.next() as u8, ..base_cfg(v6, cell, rng) };
+                    let payload = vec![cfg.pattern; usize::from(size) - 48];
+                    for seq in 0..=65535u16 {
+                        let p = probe_for(cell, cfg.initial, 0, seq, 0, 3);
+                        if udp_ck(&cfg, p.src_port.0, p.dest_port.0, &payload) == 0 {
+                            op_send(run, &cfg, &p, Some(cell));
+                            hits += 1;
+                            break;
+                        }
+                    }
+                }
+            }
+            // Dublin: ports are fixed, the payload (marker + pattern × (sequence − initial)) varies
+            for cell in cs.iter().filter(|c| c.proto == 'u' && c.strat == 'd') {
+                'search: for pattern in 0..=255u8 {
+                    let cfg = WCfg { src, dst, size: 48, pattern, ..base_cfg(v6, cell, rng) };
+                    for delta in 0..=512u16 {
+                        let p = probe_for(cell, cfg.initial, 0, cfg.initial + delta, 0, 3);
+                        let mut payload = MAGIC.to_vec();
+                        payload.extend(std::iter::repeat(pattern).take(usize::from(delta)));
+                        if udp_ck(&cfg, p.src_port.0, p.dest_port.0, &payload) == 0 {
+                            op_send(run, &cfg, &p, Some(cell));
+                            hits += 1;
+                            break 'search;
+                        }
+                    }
+                }
+            }
+        }
+        *run.stats.entry("gen:udp6-computed-zero".into()).or_default() += hits;
+    }
     // probes the strategy does not emit (arbitrary flags / ports / ttl 0 and 255; Dublin/IPv6
     // sequences outside the window): model agreement only
     for _ in 0..if thorough { 4000 } else { 600 } {
